@@ -187,6 +187,24 @@ def main():
                 out.write("CCASE xr-%d-%d f%d %s %s %s\n" % (a.seed, nxr, f["idx"], f["fl"], f["pol"], f["limit"] if f["limit"] else "-"))
                 out.write("P %s\nP age %d 1 %d\nA %s\nB %s\nPAUSE %d\nQ %s\nEND\n" % (okc, f["idx"], age, errc, okc, pause, okc))
                 nxr += 1
+    # recency under concurrency (C07): an LRU cache at capacity (limit >= 3); A stores a NEW key and is parked somewhere inside
+    # its store (at some pause points it holds the queue lock), B meanwhile looks up a resident key (a hit: a USE of that key).
+    # Whatever the interleaving, the resident keys that neither thread touched were used longer ago than both, so the next
+    # overflow evicts one of THEM and the key B looked up is still served afterwards
+    nlr = 0
+    with open(a.out, "a") as out:
+        for f in allf:
+            if f["fl"] == "t" or f["sig"] != 0 or f["gates"] or f["ret"] != 0 or f["pol"] != "lru":
+                continue
+            if f["ttl"] or f["mem"] or f["cache_if"] or f["inval_on"] or f["limit"] is None or f["limit"] < 3:
+                continue
+            L = f["limit"]
+            for pause in range(1, 7):
+                out.write("CCASE lr-%d-%d f%d %s %s %d\n" % (a.seed, nlr, f["idx"], f["fl"], f["pol"], L))
+                for x in range(L):
+                    out.write("P %s\n" % call(f, x))
+                out.write("A %s\nB %s\nPAUSE %d\nQ %s\nQ %s\nEND\n" % (call(f, L), call(f, 1), pause, call(f, L + 1), call(f, 1)))
+                nlr += 1
     # overlapping lookups of a stored key (values whose Clone the harness can hold)
     npar = 0
     with open(a.out, "a") as out:
